@@ -65,6 +65,9 @@ type Monitor struct {
 	NMoves   int
 	NReorgs  int // tip changes that left the previous tip's chain
 	MaxDepth int
+	// Act, if set, is told about manager calls, new block ids and tip changes
+	Act        *Activity
+	seenBlocks map[types.BlockID]struct{}
 	// RecoveredPanics are manager panics raised inside an RPC handler, where the
 	// syncer recovers them (recorded, not a verdict)
 	RecoveredPanics []string
@@ -174,6 +177,7 @@ func (m *Monitor) observe(src string, deep bool) *chainlab.Node {
 	}
 	prev := m.last
 	if prev != nil && prev != node {
+		m.Act.Progress()
 		m.NMoves++
 		if node.L.State.TotalWork.Cmp(prev.L.State.TotalWork) < 0 {
 			m.addFinding(Finding{"tip-work-decreased", fmt.Sprintf("%s: tip moved from node %d (height %d) to node %d (height %d) with less total work", m.Name, prev.Idx, prev.Height, node.Idx, node.Height), nil})
@@ -248,6 +252,24 @@ func (m *Monitor) afterCall(kind string, blocks []types.Block, err error, panick
 	defer m.mu.Unlock()
 	m.NCalls[kind]++
 	m.NAudits++
+	if m.Act != nil {
+		if m.seenBlocks == nil {
+			m.seenBlocks = map[types.BlockID]struct{}{}
+		}
+		fresh := false
+		for i := range blocks {
+			id := blocks[i].ID()
+			if _, ok := m.seenBlocks[id]; !ok {
+				m.seenBlocks[id] = struct{}{}
+				fresh = true
+			}
+		}
+		if fresh {
+			m.Act.Progress()
+		} else {
+			m.Act.Act()
+		}
+	}
 	rec := CallRec{Kind: kind, N: len(blocks), First: -1, Last: -1, Tip: -1, AtMS: time.Since(m.start).Milliseconds()}
 	if len(blocks) > 0 {
 		if n := m.T.ByID[blocks[0].ID()]; n != nil {
@@ -345,6 +367,18 @@ func (a *AuditCM) HandlerReads(kind string, id types.BlockID, since int64) int {
 	return n
 }
 
+// Headers implements syncer.ChainManager (served to a syncing peer).
+func (a *AuditCM) Headers(index types.ChainIndex, max uint64) ([]types.BlockHeader, uint64, error) {
+	a.Mon.Act.Act()
+	return a.Manager.Headers(index, max)
+}
+
+// BlocksForHistory implements syncer.ChainManager (served to a syncing peer).
+func (a *AuditCM) BlocksForHistory(history []types.BlockID, max uint64) ([]types.Block, uint64, error) {
+	a.Mon.Act.Act()
+	return a.Manager.BlocksForHistory(history, max)
+}
+
 // State implements syncer.ChainManager.
 func (a *AuditCM) State(id types.BlockID) (consensus.State, bool) {
 	if a.Watch != nil {
@@ -387,6 +421,8 @@ func guard(fn func()) (p any, inHandler bool) {
 
 // AddBlocks implements syncer.ChainManager.
 func (a *AuditCM) AddBlocks(blocks []types.Block) error {
+	a.Mon.Act.Enter()
+	defer a.Mon.Act.Leave()
 	if a.Perturb != nil {
 		a.Perturb()
 	}
@@ -406,6 +442,8 @@ func (a *AuditCM) AddBlocks(blocks []types.Block) error {
 
 // AddValidatedV2Blocks implements syncer.ChainManager.
 func (a *AuditCM) AddValidatedV2Blocks(blocks []types.Block, states []consensus.State) error {
+	a.Mon.Act.Enter()
+	defer a.Mon.Act.Leave()
 	if a.Perturb != nil {
 		a.Perturb()
 	}
@@ -425,6 +463,8 @@ func (a *AuditCM) AddValidatedV2Blocks(blocks []types.Block, states []consensus.
 
 // AddV2PoolTransactions implements syncer.ChainManager.
 func (a *AuditCM) AddV2PoolTransactions(basis types.ChainIndex, txns []types.V2Transaction) (bool, error) {
+	a.Mon.Act.Enter()
+	defer a.Mon.Act.Leave()
 	a.callMu.Lock()
 	defer a.callMu.Unlock()
 	var known bool
@@ -442,6 +482,8 @@ func (a *AuditCM) AddV2PoolTransactions(basis types.ChainIndex, txns []types.V2T
 
 // AddPoolTransactions implements syncer.ChainManager.
 func (a *AuditCM) AddPoolTransactions(txns []types.Transaction) (bool, error) {
+	a.Mon.Act.Enter()
+	defer a.Mon.Act.Leave()
 	a.callMu.Lock()
 	defer a.callMu.Unlock()
 	var known bool
